@@ -192,6 +192,20 @@ def check_single(d, ck):
             warnings.simplefilter("ignore")
             ck.run("polynomial(sympy,dtype)", c, lambda: numpoly.polynomial(expr, dtype=d),
                    {(0,): numpy.array(2).astype(d), (2,): numpy.array(3).astype(d)}, d, d)
+    # a list mixing a polynomial of this dtype with plain Python numbers composes like numpy.array does
+    # with a scalar of this dtype in the polynomial's place: Python numbers count with their default types
+    x0 = x[1]
+    px0 = numpoly.polynomial_from_attributes([[1]], [x0])
+    if px0.dtype == numpy.dtype(d):
+        for pyval in (0.1, 1000, -3, 2.5 + 0.5j, True):
+            if d == "bool" and isinstance(pyval, bool):
+                continue
+            want_dtype = numpy.result_type(numpy.dtype(d), type(pyval))
+            with warnings.catch_warnings(), numpy.errstate(all="ignore"):
+                warnings.simplefilter("ignore")
+                ck.run("polynomial([poly,python-scalar])", c, lambda: numpoly.polynomial([px0, pyval]),
+                       {(1,): numpy.array([x0, 0]).astype(want_dtype), (0,): numpy.array([0, pyval]).astype(want_dtype)},
+                       want_dtype, "%s,%r" % (d, pyval))
     base = numpoly.polynomial_from_attributes([[0], [1]], [data(d, (2, 2)), data(d, (2, 2), 1)])
     a, b = data(d, (2, 2)), data(d, (2, 2), 1)
     if base.dtype == numpy.dtype(d):
